@@ -35,7 +35,7 @@ Fixpoint frac_digits (fuel : nat) (r d : Z) : list Z :=
   | S f => if r =? 0 then [] else (48 + (r * 10) / d) :: frac_digits f ((r * 10) mod d) d
   end.
 Fixpoint strip_zeros_rev (l : list Z) : list Z :=
-  match l with 48 :: t => strip_zeros_rev t | _ => l end.
+  match l with c :: t => if c =? 48 then strip_zeros_rev t else l | [] => [] end.
 (** exact decimal expansion, cut after 9 fractional digits *)
 Definition print_q (q : Q) : list Z :=
   let q := Qred q in
